@@ -179,6 +179,8 @@ def mutate_in_place(X, seed):
     import random
     r = random.Random('mutate/%s' % (seed,))
     name = type(X).__name__
+    if name in ('DFA', 'NFA', 'PDA') and r.random() < 0.5 and retarget_in_place(X, seed):
+        return True                    # half of the time: a change that keeps every size (see retarget_in_place)
     try:
         if name == 'DFA':
             Q = sorted(X.Q)
@@ -219,3 +221,46 @@ def mutate_in_place(X, seed):
     except Exception:
         return False
     return True
+
+
+def retarget_in_place(X, seed):
+    """changes the content of a DFA / NFA / PDA in place WITHOUT changing any size (number of states, of delta keys, of targets):
+    one target of one transition is replaced by another state.  A memo validated by sizes, lengths or ids cannot notice it.
+    Returns True if the content changed."""
+    import random
+    r = random.Random('retarget/%s' % (seed,))
+    name = type(X).__name__
+    Q = sorted(X.Q)
+    try:
+        if name == 'DFA':
+            keys = sorted(X.delta)
+            r.shuffle(keys)
+            for k in keys:
+                others = [q for q in Q if q != X.delta[k]]
+                if others:
+                    X.delta[k] = r.choice(others)
+                    return True
+        elif name == 'NFA':
+            keys = sorted(k for k in X.delta if X.delta[k])
+            r.shuffle(keys)
+            for k in keys:
+                cur = sorted(X.delta[k])
+                others = [q for q in Q if q not in X.delta[k]]
+                if others:
+                    X.delta[k].discard(r.choice(cur))
+                    X.delta[k].add(r.choice(others))
+                    return True
+        elif name == 'PDA':
+            keys = sorted(k for k in X.delta if X.delta[k])
+            r.shuffle(keys)
+            for k in keys:
+                cur = sorted(X.delta[k])
+                (q, v) = r.choice(cur)
+                others = [(q2, v) for q2 in Q if (q2, v) not in X.delta[k]]
+                if others:
+                    X.delta[k].discard((q, v))
+                    X.delta[k].add(r.choice(others))
+                    return True
+    except Exception:
+        return False
+    return False
